@@ -23,6 +23,7 @@ import json
 import logging
 import math
 import random
+import re
 import warnings
 
 from . import gen, views
@@ -574,10 +575,9 @@ def alphabet(m):
         what=[{"t": "var", "name": "uv1", "lb": 0.0, "ub": 5.0},
               {"t": "cons", "name": "uc1", "expr": {rA.id: 1.0, rB.id: -2.0, "var:uv1": 1.0}, "lb": 0.0, "ub": 3.0}])
     add("add_cons_vars", "add_cons_vars", what=[{"t": "cons", "name": "uc2", "expr": {rO.id: 1.0}, "lb": None, "ub": 9.0}])
-    add("add_cons_vars", "add_cons_vars:duplicate-name", True,
-        what=[{"t": "var", "name": "uv2", "lb": 0.0, "ub": 1.0}, {"t": "cons", "name": mA.id, "expr": {rA.id: 1.0}, "lb": 0.0, "ub": 1.0}])
-    add("remove_cons_vars", "remove_cons_vars:mass-balance", True, names=[["cons", mA.id]])
-    add("remove_cons_vars", "remove_cons_vars:user", True, names=[["cons", "uc1"], ["var", "uv1"]])
+    add("remove_cons_vars", "remove_cons_vars:constraint", True, names=[["cons", "uc1"]])
+    add("remove_cons_vars", "remove_cons_vars:variable+constraint", True, names=[["cons", "uc1"], ["var", "uv1"]])
+    add("remove_cons_vars", "remove_cons_vars:variable", names=[["var", "uv1"]])
     if ro["genes"]:
         add("remove_genes", "remove_genes", True, gs=[gA], remove_reactions=True)
         add("remove_genes", "remove_genes:keep-reactions", True, gs=[gA], remove_reactions=False)
@@ -639,7 +639,17 @@ def _same(a, b):
     return a == b
 
 
+def _body_genes(gpr):
+    import ast
+    if gpr is None or getattr(gpr, "body", None) is None:
+        return []
+    return sorted({n.id for n in ast.walk(gpr.body) if isinstance(n, ast.Name)})
+
+
 def snapshot(model):
+    """views.snapshot with the LP split into maps, and the rule of every reaction viewed through its syntax tree: the
+    Boolean function over the genes that occur in the tree.  `gpr.genes` (a cached set that remove_genes leaves stale,
+    which is C02's concern) is compared only where it agreed with the tree at entry."""
     s = views.snapshot(model)
     lp = s.pop("lp")
     s["lp.variables"] = dict(lp[0])
@@ -647,6 +657,16 @@ def snapshot(model):
     s["lp.objective"] = dict(lp[2])
     s["lp.direction"] = lp[3]
     s["solver interface"] = model.problem.__name__
+    rx, declared = {}, {}
+    for r in model.reactions:
+        body = _body_genes(r.gpr)
+        t = list(s["reactions"][r.id])
+        t[3] = views.truth_table(r.gpr, genes=body)
+        rx[r.id] = tuple(t)
+        d = tuple(sorted(r.gpr.genes))
+        declared[r.id] = d if list(d) == body else "<stale>"
+    s["reactions"] = rx
+    s["gpr.genes"] = declared
     return s
 
 
@@ -658,6 +678,8 @@ def diff(a, b, limit=5):
         if isinstance(a[k], dict) and isinstance(b.get(k), dict):
             for key in sorted(set(a[k]) | set(b[k]), key=str):
                 x, y = a[k].get(key, "<absent>"), b[k].get(key, "<absent>")
+                if k == "gpr.genes" and x == "<stale>":
+                    continue
                 if not _same(x, y):
                     if isinstance(x, tuple) and isinstance(y, tuple) and len(x) == len(y):
                         parts = [f"#{i}: {p!r} -> {q!r}" for i, (p, q) in enumerate(zip(x, y)) if not _same(p, q)]
@@ -678,8 +700,12 @@ class _Sentinel(Exception):
     """the exception a block raises at its end when exit == 'raise'"""
 
 
-class _Abort(Exception):
+class _Abort(BaseException):
     """a property violation was recorded; the model is in an undefined state, stop the case"""
+
+
+class _Invalid(BaseException):
+    """the history violates a precondition of the solver layer (two solver objects with one name); it is discarded"""
 
 
 class _State:
@@ -688,28 +714,58 @@ class _State:
         self.trace = []
         self.nontrivial = False
         self.blocks = 0
+        self.unjudged = 0
 
 
-def _run_block(model, block, depth, st):
+_UUID = re.compile(r"[0-9a-f]{8}-[0-9a-f]{4}-[0-9a-f]{4}-[0-9a-f]{4}-[0-9a-f]{12}")
+_ADDR = re.compile(r"0x[0-9a-f]{6,}")
+
+
+def _clean(text):
+    return _ADDR.sub("0x..", _UUID.sub("<uuid>", text))
+
+
+def _do(model, it):
+    """one operation, followed by what any read access to the solver does anyway: flushing optlang's queue.
+    optlang accepts a variable/constraint whose name is taken and fails only at the next flush, leaving the queue
+    poisoned for good; such a history (add_loopless twice, a user constraint named like a metabolite, ...) violates
+    the precondition 'names in the solver are unique' and is discarded, not judged."""
+    from optlang.exceptions import ContainerAlreadyContains
+    try:
+        OPS[it["op"]](model, it)
+    finally:
+        try:
+            model.solver.update()
+        except ContainerAlreadyContains:
+            raise _Invalid()
+
+
+_ENTRY = {}  # recipe without "pre" operations -> (snapshot, check_xref, check_lp_reported) of the freshly built model
+
+
+def _run_block(model, block, depth, st, recipe_key=None):
     model.__enter__()
     st.blocks += 1
-    entry = snapshot(model)
-    x0 = views.check_xref(model)
-    l0 = views.check_lp_reported(model)
+    if recipe_key is not None and recipe_key in _ENTRY:
+        entry, x0, l0 = _ENTRY[recipe_key]
+    else:
+        entry = snapshot(model)
+        x0 = views.check_xref(model)
+        l0 = views.check_lp_reported(model)
+        if recipe_key is not None:
+            _ENTRY[recipe_key] = (entry, x0, l0)
     exc = None
     try:
         for it in block["with"]:
             if "with" in it:
                 try:
                     _run_block(model, it, depth + 1, st)
-                except _Abort:
-                    raise
                 except Exception:
                     if not it.get("catch"):
                         raise
             else:
                 try:
-                    OPS[it["op"]](model, it)
+                    _do(model, it)
                     st.trace.append("ok")
                 except Exception as e:  # noqa: the operation raised naturally
                     st.trace.append(type(e).__name__)
@@ -717,8 +773,6 @@ def _run_block(model, block, depth, st):
                         raise
         if block.get("exit") == "raise":
             raise _Sentinel()
-    except _Abort:
-        raise
     except Exception as e:  # noqa
         exc = e
     try:
@@ -734,45 +788,59 @@ def _run_block(model, block, depth, st):
         else:
             model.__exit__(type(exc), exc, exc.__traceback__)
     except Exception as e2:  # noqa
-        st.failure = f"__exit__ raised {type(e2).__name__}: {str(e2)[:160]} -- {where}"
+        st.failure = _clean(f"__exit__ raised {type(e2).__name__}: {str(e2)[:160]} -- {where}")
         raise _Abort()
+    if x0:
+        # the operations of an enclosing block left cross-references broken before this block was entered (C02's
+        # concern, e.g. remove_genes(remove_reactions=False) keeps R in g2.reactions after dropping "g1 and g2"):
+        # the statement presupposes a well-formed model at entry, so only "exit does not raise" is judged here
+        st.unjudged += 1
+        if exc is not None:
+            raise exc
+        return
     try:
         after = snapshot(model)
     except Exception as e3:  # noqa
-        st.failure = f"model unreadable after exit ({type(e3).__name__}: {str(e3)[:160]}) -- {where}"
+        st.failure = _clean(f"model unreadable after exit ({type(e3).__name__}: {str(e3)[:160]}) -- {where}")
         raise _Abort()
     d = diff(entry, after)
     if d:
-        st.failure = "state after exit differs from state at entry: " + " | ".join(d) + f" -- {where}"
+        st.failure = _clean("state after exit differs from state at entry: " + " | ".join(d) + f" -- {where}")
         raise _Abort()
     x1 = views.check_xref(model)
     if sorted(x1) != sorted(x0):
-        st.failure = "cross-references after exit: " + " | ".join([x for x in x1 if x not in x0][:4]) + f" -- {where}"
+        st.failure = _clean("cross-references after exit: " + " | ".join([x for x in x1 if x not in x0][:4]) + f" -- {where}")
         raise _Abort()
     l1 = views.check_lp_reported(model)
     if sorted(l1) != sorted(l0):
-        st.failure = "solver problem after exit: " + " | ".join([x for x in l1 if x not in l0][:4]) + f" -- {where}"
+        st.failure = _clean("solver problem after exit: " + " | ".join([x for x in l1 if x not in l0][:4]) + f" -- {where}")
         raise _Abort()
     if exc is not None:
         raise exc
 
 
 def execute(case):
-    """-> dict(failure=str|None, trace=[...], nontrivial=bool)"""
+    """-> dict(failure=str|None, trace=[...], nontrivial=bool, invalid=bool)"""
     st = _State()
     try:
         model = build_model(case["model"])
     except Exception as e:  # noqa
         return {"failure": None, "trace": ["recipe failed: %r" % (e,)], "nontrivial": False, "invalid": True}
+    # building a recipe is deterministic, so the state at the entry of the outermost block is computed once per recipe
+    # (not for recipes with "pre" operations: fix_objective_as_constraint names its constraint after a fresh uuid)
+    rk = None if case["model"].get("pre") else json.dumps(case["model"], sort_keys=True)
     try:
-        _run_block(model, case["prog"], 1, st)
+        _run_block(model, case["prog"], 1, st, rk)
     except _Abort:
         pass
+    except _Invalid:
+        return {"failure": None, "trace": st.trace, "nontrivial": False, "invalid": True}
     except Exception:  # noqa: the exception left the outermost block, as it would in user code
         pass
     if st.failure is None and model._contexts:
         st.failure = f"context stack not empty after the outermost exit ({len(model._contexts)} left)"
-    return {"failure": st.failure, "trace": st.trace, "nontrivial": st.nontrivial}
+    return {"failure": st.failure, "trace": st.trace, "nontrivial": st.nontrivial, "invalid": False,
+            "unjudged_blocks": st.unjudged}
 
 
 # --------------------------------------------------------------------------------------------------------------------
@@ -852,6 +920,7 @@ class Runner:
 
     def __init__(self):
         self.memo = {}
+        self.explained = {}
         self.executions = 0
 
     def run(self, case):
@@ -884,7 +953,7 @@ class Runner:
         return cur
 
     def analyse(self, case, max_rounds=4):
-        """-> (result of the case itself, [ (key, minimal case, failure text) ... ]).
+        """-> (result of the case itself, [ (key, minimal case, failure text, explaining repairs | None) ... ]).
         After a minimal failing core is found its operations are deleted from the history and the rest is run again, so
         that one known defect does not hide another one in the same history."""
         res = self.run(case)
@@ -896,7 +965,10 @@ class Runner:
             rounds += 1
             core = self.shrink(cur)
             rc = self.run(core)
-            found.append((key_of(core), core, rc["failure"]))
+            ck = json.dumps(core, sort_keys=True)
+            if ck not in self.explained:
+                self.explained[ck] = explain(core)
+            found.append((key_of(core), core, rc["failure"], self.explained[ck]))
             core_ops = [json.dumps(o, sort_keys=True) for o in ops_of(core["prog"])]
             strip = {json.dumps({k: v for k, v in json.loads(o).items() if k != "catch"}, sort_keys=True) for o in core_ops}
             nxt = _normalize(_without(cur["prog"], strip))
@@ -933,3 +1005,279 @@ def strip_core_flags(case):
                 it.pop("core", None)
     walk(c["prog"])
     return c
+
+
+# --------------------------------------------------------------------------------------------------------------------
+# candidate repairs, applied in-process only (never to /repo), used to attribute a minimal failing history to a defect:
+# a minimal history belongs to defect D iff it passes once D's repair is active.  Every repair is a *wrapper* that keeps
+# the current cobra code in the call path, so that a change of that code still shows (it is not papered over by a
+# corrected copy).
+# --------------------------------------------------------------------------------------------------------------------
+import contextlib  # noqa: E402
+from functools import partial  # noqa: E402
+
+
+@contextlib.contextmanager
+def repair_nested_undo():
+    """Model.__exit__: hide the enclosing contexts while the popped history is replayed, so that context-aware undo
+    actions (Reaction.__imul__, update_genes_from_gpr, remove_genes, add_cons_vars ...) record nothing."""
+    from cobra.core.model import Model
+    orig = Model.__exit__
+
+    def patched(self, type=None, value=None, traceback=None):
+        outer = self._contexts[:-1]
+        del self._contexts[:-1]
+        try:
+            return orig(self, type, value, traceback)
+        finally:
+            self._contexts[:0] = outer
+    Model.__exit__ = patched
+    try:
+        yield
+    finally:
+        Model.__exit__ = orig
+
+
+@contextlib.contextmanager
+def repair_replace_absent():
+    """Reaction.add_metabolites(combine=False): for a metabolite that is not in the reaction yet, replacing equals
+    adding, whose undo exists."""
+    from cobra.core.reaction import Reaction
+    orig = Reaction.add_metabolites
+
+    def patched(self, metabolites_to_add, combine=True, reversibly=True):
+        if not combine and self._model is not None:
+            ids = {m.id for m in self._metabolites}
+            absent = {k: v for k, v in metabolites_to_add.items() if str(k) not in ids}
+            present = {k: v for k, v in metabolites_to_add.items() if str(k) in ids}
+            if absent:
+                if present:
+                    orig(self, present, combine=False, reversibly=reversibly)
+                return orig(self, absent, combine=True, reversibly=reversibly)
+        return orig(self, metabolites_to_add, combine=combine, reversibly=reversibly)
+    Reaction.add_metabolites = patched
+    try:
+        yield
+    finally:
+        Reaction.add_metabolites = orig
+
+
+@contextlib.contextmanager
+def repair_validate_first():
+    """Reaction.add_metabolites: look all string keys up before the first coefficient is touched."""
+    from cobra.core.reaction import Reaction
+    orig = Reaction.add_metabolites
+
+    def patched(self, metabolites_to_add, combine=True, reversibly=True):
+        if self._model is not None:
+            ids = {m.id for m in self._metabolites}
+            for k in metabolites_to_add:
+                if isinstance(k, str) and k not in ids:
+                    self._model.metabolites.get_by_id(k)  # KeyError before anything is changed
+        return orig(self, metabolites_to_add, combine=combine, reversibly=reversibly)
+    Reaction.add_metabolites = patched
+    try:
+        yield
+    finally:
+        Reaction.add_metabolites = orig
+
+
+@contextlib.contextmanager
+def repair_solver_switch():
+    """Model.solver setter: on exit put the *old solver object* back (everything recorded before the switch refers to
+    it) instead of cloning the current one into a third object."""
+    from cobra.core.model import Model
+    from cobra.util.context import get_context
+    orig = Model.__dict__["solver"]
+
+    def fset(self, value):
+        old = self._solver
+        orig.fset(self, value)
+        context = get_context(self)
+        if context and self._solver is not old:
+            context(partial(setattr, self, "_solver", old))
+    Model.solver = property(orig.fget, fset, orig.fdel, orig.__doc__)
+    try:
+        yield
+    finally:
+        Model.solver = orig
+
+
+@contextlib.contextmanager
+def repair_variable_removal():
+    """remove_cons_vars_from_problem: when variables are removed inside a context, remember their coefficients in the
+    constraints and in the objective that stay, take them out of the objective first (so that its expression no longer
+    mentions them), and put the coefficients back after the variables have been re-added."""
+    import optlang
+    import cobra.core.model as cm
+    import cobra.util.solver as su
+    from cobra.util.context import get_context
+    orig = su.remove_cons_vars_from_problem
+
+    def patched(model, what):
+        context = get_context(model)
+        if context:
+            items = list(what) if isinstance(what, (list, tuple, set)) or hasattr(what, "_fields") else [what]
+            solver = model.solver
+            saved = []
+            for v in items:
+                if isinstance(v, optlang.interface.Variable) and v.problem is solver:
+                    col = {}
+                    for c in solver.constraints:
+                        coef = c.get_linear_coefficients([v])[v]
+                        if coef != 0:
+                            col[c.name] = coef
+                    try:
+                        oc = solver.objective.get_linear_coefficients([v])[v]
+                    except Exception:  # noqa: non-linear objective
+                        oc = 0
+                    if oc != 0:
+                        solver.objective.set_linear_coefficients({v: 0})
+                    saved.append((v, col, oc))
+
+            def restore():
+                s = model.solver
+                s.update()
+                for v, col, oc in saved:
+                    if v.problem is not s:
+                        continue
+                    for cname, coef in col.items():
+                        if cname in s.constraints:
+                            s.constraints[cname].set_linear_coefficients({v: coef})
+                    if oc != 0:
+                        s.objective.set_linear_coefficients({v: oc})
+            if saved:
+                context(restore)  # recorded before the original's `solver.add(what)`, hence replayed after it
+        return orig(model, what)
+    su.remove_cons_vars_from_problem = patched
+    cm.remove_cons_vars_from_problem = patched
+    try:
+        yield
+    finally:
+        su.remove_cons_vars_from_problem = orig
+        cm.remove_cons_vars_from_problem = orig
+
+
+@contextlib.contextmanager
+def repair_remove_reactions_objective():
+    """Model.remove_reactions: take the reactions' variables out of the objective *before* they are removed (so that the
+    objective expression copied by a later `set_objective` does not resurrect them) and put their coefficients back, one
+    variable at a time and into whatever objective object the solver holds then, after everything else is restored."""
+    from cobra.core.model import Model
+    from cobra.util.context import get_context
+    orig = Model.remove_reactions
+
+    def patched(self, reactions, remove_orphans=False):
+        context = get_context(self)
+        if context:
+            lst = [reactions] if isinstance(reactions, str) or hasattr(reactions, "id") else list(reactions)
+            saved = []
+            for r in lst:
+                try:
+                    r = self.reactions[self.reactions.index(r)]
+                except ValueError:
+                    continue
+                for v in (r.forward_variable, r.reverse_variable):
+                    try:
+                        oc = self.solver.objective.get_linear_coefficients([v])[v]
+                    except Exception:  # noqa
+                        oc = 0
+                    if oc != 0:
+                        self.solver.objective.set_linear_coefficients({v: 0})
+                        saved.append((v.name, oc))
+
+            def restore():
+                s = self.solver
+                s.update()
+                for name, oc in saved:
+                    if name in s.variables:
+                        s.objective.set_linear_coefficients({s.variables[name]: oc})
+            if saved:
+                context(restore)
+        return orig(self, reactions, remove_orphans=remove_orphans)
+    Model.remove_reactions = patched
+    try:
+        yield
+    finally:
+        Model.remove_reactions = orig
+
+
+@contextlib.contextmanager
+def repair_fix_objective():
+    """fix_objective_as_constraint: drop an existing constraint of the same name through the context-aware
+    remove_cons_vars_from_problem instead of `model.solver.remove`."""
+    import cobra.util.solver as su
+    import cobra.util as cu
+    orig = su.fix_objective_as_constraint
+
+    def patched(model, fraction=1.0, bound=None, name="fixed_objective_{}"):
+        fixed = name.format(model.objective.name)
+        if fixed in model.constraints:
+            su.remove_cons_vars_from_problem(model, [model.constraints[fixed]])
+        return orig(model, fraction=fraction, bound=bound, name=name)
+    su.fix_objective_as_constraint = patched
+    old_cu = getattr(cu, "fix_objective_as_constraint", None)
+    cu.fix_objective_as_constraint = patched
+    try:
+        yield
+    finally:
+        su.fix_objective_as_constraint = orig
+        if old_cu is not None:
+            cu.fix_objective_as_constraint = old_cu
+
+
+@contextlib.contextmanager
+def repair_group_membership():
+    """Group.remove_members (called by remove_reactions / remove_metabolites / remove_genes): record the inverse."""
+    from cobra.core.group import Group
+    from cobra.util.context import get_context
+    orig = Group.remove_members
+
+    def patched(self, to_remove):
+        members = [to_remove] if hasattr(to_remove, "id") or isinstance(to_remove, str) else list(to_remove)
+        present = [x for x in members if x in self._members]
+        context = get_context(self)
+        if context and present:
+            context(partial(self.add_members, present))
+        return orig(self, to_remove)
+    Group.remove_members = patched
+    try:
+        yield
+    finally:
+        Group.remove_members = orig
+
+
+# order = order of nesting (outermost first) and of preference when a history is explained by several single repairs
+REPAIRS = [
+    ("nested:undo-recorded-in-enclosing-context", repair_nested_undo),
+    ("add_metabolites:combine=False:metabolite-not-in-reaction", repair_replace_absent),
+    ("add_metabolites:raises-after-partial-update", repair_validate_first),
+    ("solver-switch:earlier-undos-act-on-the-old-solver", repair_solver_switch),
+    ("remove_reactions:objective-restored-through-stale-objects", repair_remove_reactions_objective),
+    ("variable-removal:column-not-restored", repair_variable_removal),
+    ("fix_objective_as_constraint:replaced-constraint-not-recorded", repair_fix_objective),
+    ("groups:membership-not-restored", repair_group_membership),
+]
+
+
+def execute_with(case, names):
+    with contextlib.ExitStack() as stack:
+        for key, cm in REPAIRS:
+            if key in names:
+                stack.enter_context(cm())
+        return execute(case)
+
+
+def explain(case, max_size=3):
+    """-> tuple of defect keys (smallest set of repairs under which the history passes), or None"""
+    import itertools
+    keys = [k for k, _ in REPAIRS]
+    for size in range(1, max_size + 1):
+        for sub in itertools.combinations(keys, size):
+            r = execute_with(case, set(sub))
+            if not r["failure"] and not r.get("invalid"):
+                return sub
+    r = execute_with(case, set(keys))
+    if not r["failure"] and not r.get("invalid"):
+        return tuple(keys)
+    return None
